@@ -319,7 +319,7 @@ func exec(t *testing.T, w WL, cfg simrt.Config) simh.Outcome {
 		}
 		ref, err := reference(tk.Q)
 		if err != nil {
-			o.Class, o.Detail = "oracle:solo_nondeterminism", err.Error()
+			o.Class, o.Detail = "oracle:not_byte_identical", err.Error()
 			if strings.HasPrefix(err.Error(), "PANIC") {
 				o.Class = "panic"
 			}
@@ -395,7 +395,7 @@ func exec(t *testing.T, w WL, cfg simrt.Config) simh.Outcome {
 			o.Counters["faulted_calls_returned_error"]++
 		default:
 			if got[i].SQL != refs[i].SQL || got[i].Err != refs[i].Err || !reflect.DeepEqual(got[i].Params, refs[i].Params) {
-				o.Class = "oracle:differs_from_solo"
+				o.Class = "oracle:not_byte_identical"
 				o.Detail = fmt.Sprintf("task %d translating %q among %d concurrent callers:\n got: %s %v err=%q\nsolo: %s %v err=%q", i, corpus[tk.Q].text, len(w.Tasks), got[i].SQL, got[i].Params, got[i].Err, refs[i].SQL, refs[i].Params, refs[i].Err)
 				return o
 			}
